@@ -39,16 +39,25 @@ Systems == {MkSys(fl, k, st) : fl \in {F \in SUBSET AllF : Cardinality(F) \in {2
 Slices == {<<>>} \cup {[l \in {"t"} |-> 2], [l \in {"r"} |-> 3], [l \in {"t", "e"} |-> IF l = "t" THEN 1 ELSE 2]}
 SplitsFor(S, slice) ==      \* each flow may be split by one of its dimensions that is not sliced
     {<<>>} \cup UNION {{[g \in {f} |-> l] : l \in Range(S.fdims[f]) \ DOMAIN slice} : f \in S.flows}
+\* systems with NEGATIVE flows (a net flow may run against its nominal direction): links carry the totals as they are
+Negated(S) == [S EXCEPT !.fcoef = <<3, -2, 3, -1, 4>>]
+\* the same system after its values were changed in place (all doubled): a plotter that is re-used shows the CURRENT numbers
+Doubled(S) == [S EXCEPT !.fcoef = [i \in 1..5 |-> 2 * S.fcoef[i]]]
+\* all values of the system doubled in place (flows and stocks): a second export into the SAME directory replaces the first
+DoubledAll(S) == [Doubled(S) EXCEPT !.sin = [i \in 1..2 |-> 2 * S.sin[i]], !.sout = [i \in 1..2 |-> 2 * S.sout[i]],
+                                    !.slevel = [i \in 1..2 |-> 2 * S.slevel[i]]]
+SankeySystems == {T \in Systems : T.stocks = {}} \cup {Negated(T) : T \in {U \in Systems : U.stocks = {} /\ Cardinality(U.flows) = 2}}
 SankeyConfigs ==
     UNION {UNION {{[op |-> "sankey", sys |-> S, slice |-> sl, exclp |-> ep, exclf |-> ef, split |-> sp] :
                      ep \in {{1}, {}, {1, 3}, {2}}, ef \in {{}} \cup {{f} : f \in S.flows}, sp \in SplitsFor(S, sl)} : sl \in Slices}
-           : S \in {T \in Systems : T.stocks = {}}}
+           : S \in SankeySystems}
 
 \* ---- line plots
 LineDims == OrderedSubsets({"t", "r", "e"}) \ {<<>>}
 LineConfigs ==
-    UNION {{[op |-> "lines", ds |-> ds, intra |-> i, subplot |-> s, linecolor |-> c, byname |-> bn, xarr |-> xa] :
-               i \in Range(ds), s \in {""} \cup Range(ds), c \in {""} \cup Range(ds), bn \in BOOLEAN, xa \in {"none", "same", "intra_only"}}
+    UNION {{[op |-> "lines", ds |-> ds, intra |-> i, subplot |-> s, linecolor |-> c, byname |-> bn, xarr |-> xa, chart |-> ch] :
+               i \in Range(ds), s \in {""} \cup Range(ds), c \in {""} \cup Range(ds), bn \in BOOLEAN, xa \in {"none", "same", "intra_only"},
+               ch \in {"line", "scatter", "area"}}
            : ds \in LineDims}
 RolesOK(c) == /\ c.subplot # c.intra /\ c.linecolor # c.intra /\ (c.subplot = "" \/ c.subplot # c.linecolor)
               /\ Range(c.ds) = ({c.intra, c.subplot, c.linecolor} \ {""})          \* every dimension given exactly one role
@@ -71,15 +80,16 @@ LineVal(ds, lab) == 1 + 10 * (IF "t" \in DOMAIN lab THEN lab["t"] ELSE 0) + 3 * 
 EmitInv == Emit =>
     PrintT(<<"VEC", ToJson(
         CASE cfg.op = "export" ->
-               [op |-> "export", sys |-> SysJson(cfg.sys), dict |-> ExportDict(cfg.sys),
+               [op |-> "export", sys |-> SysJson(cfg.sys), dict |-> ExportDict(cfg.sys), dict_doubled |-> ExportDict(DoubledAll(cfg.sys)),
                 csv_plain |-> CsvQuantities(cfg.sys, FALSE), csv_full |-> CsvQuantities(cfg.sys, TRUE)]
           [] cfg.op = "sankey" ->
                [op |-> "sankey", sys |-> SysJson(cfg.sys), slice |-> FnJson(cfg.slice), exclp |-> {cfg.sys.procs[p] : p \in cfg.exclp},
                 exclf |-> {cfg.sys.fname[f] : f \in cfg.exclf}, split |-> {<<cfg.sys.fname[f], cfg.split[f]>> : f \in DOMAIN cfg.split},
-                links |-> SankeyLinks(cfg.sys, cfg.slice, cfg.exclp, cfg.exclf, cfg.split), nodes |-> SankeyNodes(cfg.sys, cfg.exclp)]
+                links |-> SankeyLinks(cfg.sys, cfg.slice, cfg.exclp, cfg.exclf, cfg.split), nodes |-> SankeyNodes(cfg.sys, cfg.exclp),
+                links_doubled |-> SankeyLinks(Doubled(cfg.sys), cfg.slice, cfg.exclp, cfg.exclf, cfg.split)]
           [] cfg.op = "lines" ->
                [op |-> "lines", ds |-> cfg.ds, intra |-> cfg.intra, subplot |-> cfg.subplot, linecolor |-> cfg.linecolor,
-                byname |-> cfg.byname, xarr |-> cfg.xarr,
+                byname |-> cfg.byname, xarr |-> cfg.xarr, chart |-> cfg.chart,
                 lines |-> Lines(cfg.ds, LAMBDA lab : LineVal(cfg.ds, lab), cfg.intra, cfg.subplot, cfg.linecolor)])>>)
 
 \* theorems of the contract
